@@ -6,7 +6,7 @@ import athlib
 from vlib import athlon
 from vlib.exact import centi_float, Undecidable
 from vlib.harness import V, derive_seed, run_shards
-from vlib.lib import call
+from vlib.lib import call, mod
 
 PROPERTY = 'C01'
 RULE = ('rows = the 48 scoring-table rows + 3 veterans\' hurdles aliases + ESAA boys\' 800 m; marks on the '
@@ -106,6 +106,8 @@ def examine_point(row, c, age, carriers=('float',)):
 def examine(case):
     if case['kind'] == 'unknown':
         return examine_unknown(case)
+    if case['kind'] == 'sequence':
+        return examine_sequence(case)
     rows = athlon.rows()
     for row in rows:
         if row[0] == case['gender'] and row[1] == case['event'] and row[7] == bool(case.get('esaa')):
@@ -187,11 +189,43 @@ def shard(ctx, payload):
             do(c, age)
 
 
+_snap = None
+
+
+def reset_state():
+    """Module state of athlon_score back to what it was right after import (coefficient rows, lazy table)."""
+    global _snap
+    from vlib.statesnap import Snap
+    if _snap is None:
+        _snap = Snap(mod('athlon_score'))
+    _snap.restore()
+
+
+reset_state()        # snapshot at import, before anything is scored
+
+
+def examine_sequence(case):
+    """Points scored one after the other from the just-imported state; every one is judged (the last is the finding)."""
+    reset_state()
+    rows = athlon.rows()
+    by = {(r[0], r[1], r[7]): r for r in rows}
+    out = []
+    for g, e, c, age, esaa in case['points']:
+        row = by.get((g, e, bool(esaa)))
+        if row is None:
+            continue
+        out = examine_point(row, c, age, ('float',))[0]
+    for v in out:
+        v['sig'] = v['sig'] + ['interleaved-rows']
+        v['case'] = case
+    return out
+
+
 def mixed_pass(ctx, rows):
     """History independence: the shards above visit one row per process, so state leaking from one call into a later
     one (a cache keyed too coarsely, a shared row edited in place by the ESAA option) would stay invisible.  Here all
-    rows, ages and the ESAA option are interleaved in ONE process in a seeded shuffled order, and a sample is asked again
-    at the very end; every answer is still compared with the exact oracle."""
+    rows, ages and the ESAA option are interleaved in ONE process in seeded shuffled segments of 25 calls, each segment
+    starting from the just-imported module state (so a finding replays); every answer is compared with the exact oracle."""
     rng = random.Random(derive_seed(ctx.seed, 'C01-mixed'))
     cases = []
     for ri, row in enumerate(rows):
@@ -200,15 +234,45 @@ def mixed_pass(ctx, rows):
             age = rng.choice([None, None, 0, rng.randrange(1, 35), rng.randrange(35, 111), rng.randrange(35, 111)])
             cases.append((ri, rng.randrange(0, hi + 1), age))
     rng.shuffle(cases)
-    again = cases[:3000]
-    for ri, c, age in cases + again:
-        ctx.count()
-        vs, nt, why = examine_point(rows[ri], c, age, ('float',))
-        if vs:
-            for v in vs:
-                v['sig'] = v['sig'] + ['interleaved-rows']
-            ctx.violations(vs)
-    ctx.label('mixed-single-process-pass', len(cases) + len(again))
+    n = 0
+    for i in range(0, len(cases), 25):
+        reset_state()
+        seg = []
+        for ri, c, age in cases[i:i + 25]:
+            row = rows[ri]
+            seg.append([row[0], row[1], c, age, row[7]])
+            ctx.count()
+            n += 1
+            vs, nt, why = examine_point(row, c, age, ('float',))
+            if vs:
+                for v in vs:
+                    v['sig'] = v['sig'] + ['interleaved-rows']
+                    v['case'] = {'kind': 'sequence', 'points': list(seg)}
+                ctx.violations(vs)
+                break
+    ctx.label('mixed-single-process-pass', n)
+
+
+def shrink(bucket):
+    case = bucket['case']
+    if case.get('kind') != 'sequence':
+        return None
+    sig = bucket['sig']
+    pts = list(case['points'])
+
+    def fails(p):
+        return any(v['sig'] == sig for v in examine_sequence({'kind': 'sequence', 'points': p}))
+    if not fails(pts):
+        return None
+    i = 0
+    while i < len(pts) - 1:
+        t = pts[:i] + pts[i + 1:]
+        if fails(t):
+            pts = t
+        else:
+            i += 1
+    v = [v for v in examine_sequence({'kind': 'sequence', 'points': pts}) if v['sig'] == sig][0]
+    return {'case': v['case'], 'observed': v['observed']}
 
 
 def run(ctx):
